@@ -416,6 +416,10 @@ type Config struct {
 	PipeCap int `json:"pipe_cap"`
 	// MaxSteps caps the run.
 	MaxSteps int `json:"max_steps"`
+	// StallPct > 0: with this probability per step every runnable task is stalled
+	// until the next pending event (a loaded machine: the clock moves although
+	// code is ready to run). Scenarios that set it give up their exact-time oracles.
+	StallPct int `json:"stall_pct,omitempty"`
 }
 
 // Kernel owns the whole simulated world of one run.
@@ -453,16 +457,18 @@ type Kernel struct {
 	KeepTrace  bool
 	nondefault int
 
-	closing   bool
-	quiesced  int
-	stopped   bool
-	stopWhy   string
-	Stuck     []string
-	Invariant func(k *Kernel) *Violation
-	OnQuiesce func(k *Kernel) bool // return true to continue the run (something was released)
-	drainFns  []func()
-	idle      []*Task // tasks waiting for quiescence
-	awaiting  []awaiter
+	closing  bool
+	quiesced int
+	// QuiesceSeqs are the sequence numbers at which the world was quiescent.
+	QuiesceSeqs []uint64
+	stopped     bool
+	stopWhy     string
+	Stuck       []string
+	Invariant   func(k *Kernel) *Violation
+	OnQuiesce   func(k *Kernel) bool // return true to continue the run (something was released)
+	drainFns    []func()
+	idle        []*Task // tasks waiting for quiescence
+	awaiting    []awaiter
 	// idle-cycle detection: a service with an idle timeout and an open
 	// connection re-arms its accept deadline for ever; when nothing else has
 	// happened between two expiries the world is quiescent modulo that cycle
@@ -1011,6 +1017,16 @@ func (k *Kernel) Run() {
 		if ev != nil {
 			n++
 		}
+		if k.cfg.StallPct > 0 && len(run) > 0 && ev == nil && len(k.events) > 0 && k.Draw(100) < k.cfg.StallPct {
+			// stall: nobody gets the CPU before the next event is due
+			k.Fault("stall")
+			k.trace("stall until %s", k.events[0].name)
+			d := time.Until(k.events[0].at)
+			raceOff()
+			time.Sleep(d)
+			raceOn()
+			continue
+		}
 		if n == 0 {
 			if len(k.events) > 0 {
 				e := k.events[0]
@@ -1088,6 +1104,7 @@ func (k *Kernel) Run() {
 // released; if there are none the run is over. It reports whether the run continues.
 func (k *Kernel) quiesce() bool {
 	k.quiesced++
+	k.QuiesceSeqs = append(k.QuiesceSeqs, k.step)
 	k.trace("quiescent #%d", k.quiesced)
 	if len(k.idle) > 0 {
 		for _, t := range k.idle {
